@@ -487,6 +487,13 @@ class Session(object):
         return spell(self.cfg['sig'], b, form)
 
 
+class ObservationFailed(Exception):
+    """the harness could not read a cache or archive through its public mapping interface (items() raised)"""
+    def __init__(self, msg, cause):
+        Exception.__init__(self, msg)
+        self.__traceback__ = cause.__traceback__        # so that exc_sig() names the klepto frame that raised
+
+
 def apply_op(sess, op, trace, observe=True, prev=None):
     """apply one op to a session; append a Step. Returns the Step."""
     f, fn, cache = sess.f, sess.fn, sess.cache
@@ -496,7 +503,16 @@ def apply_op(sess, op, trace, observe=True, prev=None):
         if prev is not None and prev.post_mem is not None:
             st.pre_mem, st.pre_arch, st.pre_info = prev.post_mem, prev.post_arch, prev.post_info
         else:
-            st.pre_mem, st.pre_arch, st.pre_info = mem_snapshot(cache), arch_snapshot(cache), info_tuple(f)
+            try:
+                st.pre_mem, st.pre_arch, st.pre_info = mem_snapshot(cache), arch_snapshot(cache), info_tuple(f)
+            except Exception as e:
+                # the cache / archive cannot even be read through its public interface: reported as this step's failure, not as a harness error
+                st.exc = ObservationFailed('reading the cache / archive before %r raised %r' % (op, e), e)
+                st.pre_mem, st.pre_arch, st.pre_info = {}, None, (0, 0, 0, None, 0)
+                st.post_mem, st.post_arch, st.post_info = {}, None, (0, 0, 0, None, 0)
+                st.evals = 0
+                trace.steps.append(st)
+                return st
     n0 = len(fn.log)
     try:
         if kind in ('call', 'lookup', 'key'):
@@ -605,7 +621,12 @@ def apply_op(sess, op, trace, observe=True, prev=None):
         st.exc = e
     st.evals = len(fn.log) - n0
     if observe:
-        st.post_mem, st.post_arch, st.post_info = mem_snapshot(cache), arch_snapshot(cache), info_tuple(f)
+        try:
+            st.post_mem, st.post_arch, st.post_info = mem_snapshot(cache), arch_snapshot(cache), info_tuple(f)
+        except Exception as e:
+            if st.exc is None:
+                st.exc = ObservationFailed('reading the cache / archive after %r raised %r' % (op, e), e)
+            st.post_mem, st.post_arch, st.post_info = {}, None, (0, 0, 0, None, 0)
     trace.steps.append(st)
     return st
 
